@@ -223,6 +223,8 @@ pub struct Outcome {
 }
 
 pub struct Scn<'a> {
+    /// the key the last Plutus source newly declared (withdrawn again when its item is refused)
+    pub last_declared: Option<Vec<u8>>,
     pub r: &'a mut Rng,
     pub ring: &'a KeyRing,
     pub f: Focus,
@@ -272,7 +274,7 @@ pub fn val_to_csl(v: &Val) -> Value {
 impl<'a> Scn<'a> {
     pub fn new(r: &'a mut Rng, ring: &'a KeyRing, f: Focus) -> Scn<'a> {
         let net = r.below(2) as u8;
-        Scn { r, ring, f, utxos: vec![], log: vec![], markers: vec![], next_marker: 1000, next_tx: 1, declared_refs: vec![], net, used_langs: vec![], panics: vec![], extra_signers: vec![], superseded: false, tuned: false, interim_hash: false, declared_signers: vec![], unit_redeemers: false, datum_refs: vec![], cert_order: vec![], verbatim_datums: false }
+        Scn { r, ring, f, utxos: vec![], log: vec![], markers: vec![], next_marker: 1000, next_tx: 1, declared_refs: vec![], net, used_langs: vec![], panics: vec![], extra_signers: vec![], superseded: false, tuned: false, last_declared: None, interim_hash: false, declared_signers: vec![], unit_redeemers: false, datum_refs: vec![], cert_order: vec![], verbatim_datums: false }
     }
     fn p(&mut self, num: u64) -> bool {
         self.r.below(16) < num
@@ -442,8 +444,36 @@ impl<'a> Scn<'a> {
             LanguageKind::PlutusV3 => 3,
         }
     }
-    /// a plutus script source: inline or through a declared reference input carrying the script
+    /// a plutus script source: inline or through a declared reference input carrying the script; now and then
+    /// the caller declares a key the script will ask a signature of (it signs, so it is sized and paid for)
     pub fn plutus_source(&mut self, script_ix: usize) -> PlutusScriptSource {
+        let mut src = self.plutus_source_plain(script_ix);
+        // a later refusal withdraws the declaration of ITS source only
+        self.last_declared = None;
+        if self.p(3) {
+            let k = self.key_ix();
+            let kh = self.ring.keys[k].hash.clone();
+            let mut ks = Ed25519KeyHashes::new();
+            ks.add(&kh);
+            src.set_required_signers(&ks);
+            let b = kh.to_bytes();
+            self.last_declared = None;
+            if !self.extra_signers.contains(&b) {
+                self.extra_signers.push(b.clone());
+                self.last_declared = Some(b);
+            }
+            self.log.push(format!("plutus source declares signer key{}", k));
+        }
+        src
+    }
+    /// the item the last Plutus source was made for was refused: what it declared does not count
+    pub fn undo_last_declared(&mut self) {
+        if let Some(b) = self.last_declared.take() {
+            self.extra_signers.retain(|x| *x != b);
+            self.log.push("(the declaration of the refused item is withdrawn)".into());
+        }
+    }
+    fn plutus_source_plain(&mut self, script_ix: usize) -> PlutusScriptSource {
         let s = self.ring.plutus[script_ix].clone();
         let lt = Self::lang_tag(&s.language_version());
         if !self.used_langs.contains(&lt) {
@@ -887,6 +917,9 @@ pub fn run_scenario(r: &mut Rng, ring: &KeyRing, f: Focus) -> Option<Outcome> {
                 (_, Some(i)) => {
                     let (m, w) = s.plutus_witness_nodatum(i, RedeemerTag::new_cert());
                     let r = g!(s, "certs.add_with_plutus_witness", cb.add_with_plutus_witness(&cert, &w));
+                    if !matches!(r, Some(Ok(()))) {
+                        s.undo_last_declared();
+                    }
                     if let Some(Ok(())) = r {
                         any_plutus = true;
                         s.markers.push(Marker { marker: m, purpose: 2, item: ItemId::Cert(cert_bytes.clone()), script_hash: ring.plutus[i].hash().to_bytes() });
@@ -905,6 +938,9 @@ pub fn run_scenario(r: &mut Rng, ring: &KeyRing, f: Focus) -> Option<Outcome> {
                             s.log.push("cert: add refused, caller falls back to add_with_plutus_witness".into());
                             let (m, w) = s.plutus_witness_nodatum(i, RedeemerTag::new_cert());
                             let r2 = g!(s, "certs.add_with_plutus_witness(fallback)", cb.add_with_plutus_witness(&cert, &w));
+                    if !matches!(r2, Some(Ok(()))) {
+                        s.undo_last_declared();
+                    }
                             if let Some(Ok(())) = r2 {
                                 any_plutus = true;
                                 s.markers.push(Marker { marker: m, purpose: 2, item: ItemId::Cert(cert_bytes.clone()), script_hash: ring.plutus[i].hash().to_bytes() });
@@ -1009,6 +1045,9 @@ pub fn run_scenario(r: &mut Rng, ring: &KeyRing, f: Focus) -> Option<Outcome> {
                     seen.push(ra.to_address().to_bytes());
                     let (m, w) = s.plutus_witness_nodatum(i, RedeemerTag::new_reward());
                     let r = g!(s, "withdrawals.add_with_plutus_witness", wb.add_with_plutus_witness(&ra, &BigNum::from(coin), &w));
+                    if !matches!(r, Some(Ok(()))) {
+                        s.undo_last_declared();
+                    }
                     if let Some(Ok(())) = r {
                         any_plutus = true;
                         s.markers.push(Marker { marker: m, purpose: 3, item: ItemId::Reward(ra.to_address().to_bytes()), script_hash: ring.plutus[i].hash().to_bytes() });
@@ -1068,6 +1107,9 @@ pub fn run_scenario(r: &mut Rng, ring: &KeyRing, f: Focus) -> Option<Outcome> {
                     }
                     let (m, w) = s.plutus_witness_nodatum(i, RedeemerTag::new_vote());
                     let r = g!(s, "votes.add_with_plutus_witness", vb.add_with_plutus_witness(&voter, &gid, &proc_, &w));
+                    if !matches!(r, Some(Ok(()))) {
+                        s.undo_last_declared();
+                    }
                     if let Some(Ok(())) = r {
                         any_plutus = true;
                         s.markers.push(Marker { marker: m, purpose: 4, item: ItemId::Voter(vbytes.clone()), script_hash: ring.plutus[i].hash().to_bytes() });
@@ -1119,6 +1161,9 @@ pub fn run_scenario(r: &mut Rng, ring: &KeyRing, f: Focus) -> Option<Outcome> {
             let res = if needs_script {
                 let (m, w) = s.plutus_witness_nodatum(pl_ix, RedeemerTag::new_voting_proposal());
                 let r = g!(s, "proposals.add_with_plutus_witness", pb.add_with_plutus_witness(&prop, &w));
+                    if !matches!(r, Some(Ok(()))) {
+                        s.undo_last_declared();
+                    }
                 if let Some(Ok(())) = r {
                     any_plutus = true;
                     s.markers.push(Marker { marker: m, purpose: 5, item: ItemId::Proposal(prop.to_bytes()), script_hash: ring.plutus[pl_ix].hash().to_bytes() });
